@@ -299,12 +299,22 @@ def worker_main(case):
         out['db_pristine'] = hx(raw)
         # locate each entry's metadata from what was generated
         ents = []
+        # entry starts as the scanner sees them: leftmost marker occurrence, then resume right after it (a path that itself starts
+        # with FE FF makes a second, shifted occurrence of the marker pattern, which is not an entry start)
+        braw, starts, pos_ = bytes(raw), [], 0
+        while True:
+            m_ = braw.find(MARK, pos_)
+            if m_ < 0:
+                break
+            starts.append(m_ + len(MARK))
+            pos_ = m_ + len(MARK)
         for relb, content in files:
-            head = MARK + relb + DELIM + str(len(content)).encode() + DELIM
-            at = bytes(raw).find(head)
-            if at < 0 or bytes(raw).find(head, at + 1) >= 0:
+            head = relb + DELIM + str(len(content)).encode() + DELIM
+            cand = [s_ for s_ in starts if braw.startswith(head, s_)]
+            if len(cand) != 1:
                 out['locate_failed'] = hx(relb)
                 return out
+            at = cand[0] - len(MARK)
             o_path = at + len(MARK)
             o_size = o_path + len(relb) + len(DELIM)
             o_pecc = o_size + len(str(len(content))) + len(DELIM)
